@@ -38,6 +38,12 @@ let do_str hex =
   for i = 0 to len do pr "%d," (int_of_nat (uc_prev (List.rev (firstn i s)))) done;
   pr " kind=";
   for i = 0 to len do pr "%d," (int_of_n (uc_kind (skipn i s))) done;
+  pr " cls=";
+  for i = 0 to len do
+    let t = skipn i s in
+    let b x = if x then 1 else 0 in
+    pr "%d," (b (uc_isspace t) lor (b (uc_isprint t) lsl 1) lor (b (uc_isalpha t) lsl 2) lor (b (uc_isdigit t) lsl 3))
+  done;
   pr " sub=";
   if n <= 6 then
     for b = -1 to n do for e = -1 to n do
